@@ -633,7 +633,7 @@ pub fn exec(req: &[String], out: &mut Out, tmpdir: &Path) {
         }
     }
     let par = std::env::var("VERIF_PAR").ok().and_then(|v| v.parse().ok()).unwrap_or(4usize).min(4);
-    let results = run_sessions(&sessions, tmpdir, "c06", par, session_timeout().max(40), |s, emit| session(s, emit));
+    let results = run_sessions(&sessions, tmpdir, "c06", par, session_timeout().max(180), |s, emit| session(s, emit));
     for (s, (lines, how)) in sessions.iter().zip(results) {
         let id = format!("C06 new {} {} {} {}", s.tc, s.profile, s.seed, s.minor);
         if let Some(e) = &s.compile_error {
